@@ -45,6 +45,10 @@ CONSTANTS
   Regen,                \* TRUE: while no injector exists the environment may replace a function's code (JIT output
                         \* regenerated, a plugin unloaded and loaded again at the same address); what a lifetime restores is
                         \* what IT found, not what an earlier lifetime found
+  ForeignReuse,         \* TRUE: the rest of the process may take over an address the library has given back (a released
+                        \* trampoline page) and keep its own memory there
+  AllocAt,              \* "hint" (the kernel never places a mapping over existing memory) | "fixed" (deviation: the
+                        \* allocator insists on a remembered address, whatever lies there now)
   SavedFrom,            \* "install" | "first" (deviation: the bytes to restore come from a process-wide table filled
                         \* when the function was first seen and never invalidated)
   TrampFlushed          \* FALSE = the macOS variant as read from the source: clear_cache() is empty there and only
@@ -124,7 +128,7 @@ Init ==
   /\ orig = [f \in Funcs |-> [i \in 1..SlotLen |-> OrigCell(f, i)]]
   /\ code = orig
   /\ tramp = [id \in TrampIds |-> [state |-> "unmapped", content |-> [kind |-> "none"], size |-> 0,
-                                   written |-> FALSE, frees |-> 0, orphan |-> FALSE]]
+                                   written |-> FALSE, frees |-> 0, orphan |-> FALSE, over |-> FALSE]]
   /\ rw = {} /\ dirty = {}
   /\ ctr = [s \in Sites |-> 0]
   /\ aborted = FALSE /\ fault = FALSE
@@ -212,9 +216,11 @@ Content(t) ==
 
 AllocOk(t, id) ==
   /\ InInstall(t) /\ Done(t, "gate") /\ ~Done(t, "alloc") /\ LinearOk(t, "alloc")
-  /\ id \in FreshTramps /\ \A j \in FreshTramps : id <= j   \* ids are interchangeable: take the least
+  /\ \/ id \in FreshTramps /\ \A j \in FreshTramps : id <= j   \* ids are interchangeable: take the least
+     \/ AllocAt = "fixed" /\ tramp[id].state = "foreign"       \* deviation: mapped over somebody else's memory
   /\ tramp' = [tramp EXCEPT ![id] = [state |-> "live", content |-> [kind |-> "none"], size |-> cur[t].size,
-                                     written |-> FALSE, frees |-> 0, orphan |-> FALSE]]
+                                     written |-> FALSE, frees |-> 0, orphan |-> FALSE,
+                                     over |-> (tramp[id].state = "foreign")]]
   /\ cur' = [cur EXCEPT ![t].done = @ \cup {"alloc"}, ![t].tid = id]
   /\ UNCHANGED <<lock, poisoned, th, inj, dropst, code, orig, rw, dirty, ctr, aborted, fault, inflight>>
 
@@ -247,6 +253,14 @@ ReadOrig(t) ==
                          ![t].saved = IF SavedFrom = "install" THEN SubSeq(code[cur[t].f], 1, cur[t].size)
                                       ELSE [i \in 1..cur[t].size |-> OrigCell(cur[t].f, i)]]
   /\ UNCHANGED <<lock, poisoned, th, inj, dropst, code, orig, tramp, rw, dirty, ctr, aborted, fault, inflight>>
+
+\* environment: an address the library has given back now belongs to somebody else (at most one at a time here)
+ForeignTake(id) ==
+  /\ ForeignReuse /\ tramp[id].state = "unmapped" /\ tramp[id].frees = 0
+  /\ \A j \in TrampIds : tramp[j].state # "foreign"
+  /\ \E j \in TrampIds : j # id /\ tramp[j].state = "unmapped"        \* the window is never exhausted by it
+  /\ tramp' = [tramp EXCEPT ![id].state = "foreign"]
+  /\ UNCHANGED <<lock, poisoned, th, inj, cur, dropst, code, orig, rw, dirty, ctr, aborted, fault, inflight>>
 
 \* environment: the code of a function is replaced while nobody holds the lock and nothing is installed on it
 RegenTag(tag) == IF tag = "o" THEN "r1" ELSE IF tag = "r1" THEN "r2" ELSE "r3"
@@ -419,7 +433,7 @@ Unlock(t) ==
   \* bookkeeping only: ids of mappings that were given back may name new mappings later
   /\ tramp' = [id \in TrampIds |-> IF tramp[id].state = "freed" /\ tramp[id].frees = 1
                                      THEN [state |-> "unmapped", content |-> [kind |-> "none"], size |-> 0,
-                                           written |-> FALSE, frees |-> 0, orphan |-> FALSE]
+                                           written |-> FALSE, frees |-> 0, orphan |-> FALSE, over |-> FALSE]
                                      ELSE tramp[id]]
   \* pages are treated as read-only again in the next lifetime: stricter than the kernel (they
   \* stay writable) and therefore conservative for NoFault; it keeps lifetimes independent
@@ -486,6 +500,7 @@ Next ==
        \/ Abandon(t) \/ NestedBegin(t) \/ OtherExec(t)
        \/ \E f \in Funcs : OtherEnter(t, f)
        \/ \E f \in Funcs : Regenerate(f)
+       \/ \E id \in TrampIds : ForeignTake(id)
 
 Spec == Init /\ [][Next]_vars
 
@@ -514,6 +529,8 @@ IdleClean == \A t \in Threads : th[t].pc = "idle" => (lock # t /\ inj[t].guards 
 \* C12
 NoLeak    == (lock = Free /\ HoldingSet = {}) => \A id \in TrampIds : tramp[id].state = "live" => tramp[id].orphan
 FreeOnce  == \A id \in TrampIds : tramp[id].frees <= 1
+\* C03 / C12: memory of the rest of the process is never mapped over (nor, as a consequence, written or unmapped)
+ForeignIntact == \A id \in TrampIds : ~tramp[id].over
 \* C17
 FlushedAtUser == (\A t \in Threads : th[t].pc \in {"idle", "waiting", "user"})
                     => dirty \ {TrampLoc(id) : id \in {x \in TrampIds : tramp[x].orphan}} = {}
@@ -527,6 +544,6 @@ WX == (\A t \in Threads : th[t].pc \in {"idle", "waiting"}) => rw = {}
 TypeOK ==
   /\ lock \in Threads \cup {Free}
   /\ \A t \in Threads : th[t].pc \in {"idle", "waiting", "user", "install", "drop", "verify", "dead", "selfdead"}
-  /\ \A id \in TrampIds : tramp[id].state \in {"unmapped", "live", "freed"}
+  /\ \A id \in TrampIds : tramp[id].state \in {"unmapped", "live", "freed", "foreign"}
 
 =============================================================================
